@@ -217,19 +217,25 @@ def read_ndjson(path):
         return [json.loads(l) for l in f if l.strip()]
 
 
-def case_lines(path, case_id, key="case"):
-    """Raw lines of one case of a trace file."""
-    out = []
+def cases_lines(path, case_ids, key="case"):
+    """Raw lines of several cases of a trace file, in one pass: {case_id: [lines]}."""
+    want = set(case_ids)
+    out = {c: [] for c in want}
     with open(path) as f:
         for l in f:
             if not l.strip():
                 continue
             try:
-                if json.loads(l).get(key) == case_id:
-                    out.append(l.rstrip("\n"))
+                c = json.loads(l).get(key)
             except Exception:
-                pass
+                continue
+            if c in want:
+                out[c].append(l.rstrip("\n"))
     return out
+
+
+def case_lines(path, case_id, key="case"):
+    return cases_lines(path, [case_id], key)[case_id]
 
 
 def save_replay(prop, lines, meta):
@@ -287,6 +293,7 @@ class Verdicts:
         self.findings = [f for f in load_findings() if f["property"] == prop and f.get("status", "open") == "open"]
         self.violations = []      # (replay path, summary)
         self.known = {}           # key -> count
+        self.nviol = 0
         self.notes = []
 
     def failing_case(self, lines, meta, classify):
@@ -299,8 +306,10 @@ class Verdicts:
                     return
             except Exception as ex:
                 self.notes.append("classifier error for %s: %r" % (f["key"], ex))
-        path = save_replay(self.prop, lines, meta)
-        self.violations.append(path)
+        self.nviol += 1
+        if len(self.violations) < 25:
+            path = save_replay(self.prop, lines, meta)
+            self.violations.append(path)
 
     def report(self):
         for f in self.findings:
@@ -312,7 +321,9 @@ class Verdicts:
                 seen.add(p)
                 if len(seen) <= 5:
                     log("VIOLATION property=%s replay=%s" % (self.prop, p))
-        return len(seen)
+        if self.nviol > len(seen):
+            log("(%d violating cases in total; replay files written for the first %d)" % (self.nviol, len(seen)))
+        return self.nviol
 
 
 def write_evidence(prop, tier, seed, coverage, assumptions, wall_s, violations):
@@ -382,14 +393,14 @@ class Run:
             self.tags[tag] = self.tags.get(tag, 0) + len(set(cases))
             if tag == "SPEC-ERROR":
                 self.tool_errors.append("%s: specification cross-check failed on case(s) %s of %s" % (name, sorted(set(cases))[:5], trace))
-        bad_cases = []
-        for (_, c) in r["rejects"]:
-            if c not in bad_cases:
-                bad_cases.append(c)
+        bad_cases = sorted(set(c for (_, c) in r["rejects"]))
+        # every rejected case is classified (known finding or not); replay files are written for
+        # the first unknown ones, the rest are only counted
+        rev = repo_rev()
+        all_lines = cases_lines(trace, bad_cases, case_key) if bad_cases else {}
         for c in bad_cases:
-            lines = case_lines(trace, c, case_key)
-            self.v.failing_case(lines, dict(tier=self.tier, seed=self.seed, spec=module, cfg=cfg, repo=repo_rev(),
-                                            trace=os.path.basename(trace)), classify)
+            self.v.failing_case(all_lines[c], dict(tier=self.tier, seed=self.seed, spec=module, cfg=cfg, repo=rev,
+                                                   trace=os.path.basename(trace)), classify)
         return len(bad_cases)
 
     def gen_validate(self, label, harness_args, module, cfg, shards, classify, count_cases, env=None,
